@@ -218,6 +218,26 @@ def gen_resource(rng, g, d):
         r["DependsOn"] = rng.choice(["R1", ["R1", "R2"]])
     if rng.random() < 0.1:
         r["Metadata"] = {"Note": g.s(d), "K": [g.s(d)]}
+    # intrinsic functions in the resource attributes OTHER than Properties ("wherever it sits in a resource"; added after
+    # seeded changes C01-r3m2 / C03-r3m1, which resolved only some attributes / skipped resources without Properties)
+    generic = k >= 0.62
+    was = g.str_only
+    g.str_only = True
+    if rng.random() < 0.12:
+        r["DeletionPolicy"] = opt(rng, g, g.s(d)) if rng.random() < 0.3 else g.s(d)
+    if rng.random() < 0.08:
+        r["UpdateReplacePolicy"] = g.s(d)
+    if rng.random() < 0.08:
+        r["DependsOn"] = g.s(d) if rng.random() < 0.5 else g.l(d)
+    if rng.random() < 0.08:
+        r["UpdatePolicy"] = {"AutoScalingRollingUpdate": {"MinInstancesInService": g.s(d), "PauseTime": g.s(d)}}
+    if rng.random() < 0.06:
+        r["CreatePolicy"] = {"ResourceSignal": {"Count": g.s(d), "Timeout": "PT5M"}}
+    if generic and rng.random() < 0.1:
+        r["CreationPolicy"] = {"ResourceSignal": {"Count": g.s(d)}, "L": g.l(d)}
+    if generic and rng.random() < 0.12 and any(a in r for a in ("DeletionPolicy", "CreationPolicy", "UpdatePolicy", "Metadata", "DependsOn")):
+        del r["Properties"]       # a resource without a Properties block (WaitConditionHandle style)
+    g.str_only = was
     return r
 
 
